@@ -104,7 +104,7 @@ const (
 )
 
 func (o Outcome) String() string {
-	return [...]string{"quiescent", "deadlock", "fatal", "steplimit"}[o]
+	return [...]string{"all-threads-done", "idle(no thread enabled)", "fatal", "steplimit"}[o]
 }
 
 type S struct {
